@@ -2,6 +2,8 @@ package main
 
 import (
 	"bytes"
+	"context"
+	"errors"
 	"fmt"
 
 	"cuelabs.dev/go/oci/ociregistry"
@@ -120,6 +122,105 @@ func sizeDrivenUpload(run *evid.Run, idx int) {
 			r, err := m.GetBlob(bg, "r/size-driven", ociregistry.Digest(model.Digest(wantBytes)))
 			if err != nil {
 				run.Violation("replicate/size-driven-upload/member-lacks-blob", fmt.Sprintf("member %d does not hold the committed blob: %v", i, err), w)
+				continue
+			}
+			r.Close()
+		}
+	}
+}
+
+// failResumeOnce refuses the next PushBlobChunkedResume when armed (a member that is briefly unreachable);
+// nothing else about the registry changes.
+type failResumeOnce struct {
+	ociregistry.Interface
+	armed *bool
+}
+
+func (f failResumeOnce) PushBlobChunkedResume(ctx context.Context, repo, id string, offset int64, chunkSize int) (ociregistry.BlobWriter, error) {
+	if *f.armed {
+		*f.armed = false
+		return nil, errors.New("injected: registry unreachable for this one request")
+	}
+	return f.Interface.PushBlobChunkedResume(ctx, repo, id, offset, chunkSize)
+}
+
+// resumeRetried: one member is unreachable for exactly one resume. The unifier reports that resume as
+// failed - nothing was written, the members are as equal as before - and the caller tries again, writes on
+// and commits. On one registry with the same hiccup the upload completes; through the unifier it has to
+// complete too, on both members: the refused resume was no write, and every write after it is one both
+// members accept.
+func resumeRetried(run *evid.Run, idx int) {
+	type stepResult struct {
+		what string
+		ok   bool
+	}
+	script := func(reg ociregistry.Interface, arm func()) (res []stepResult, final []byte) {
+		note := func(what string, err error) bool {
+			res = append(res, stepResult{what, err == nil})
+			return err == nil
+		}
+		const repo = "r/resume-retried"
+		first, second := []byte(fmt.Sprintf("first %d;", idx)), []byte(fmt.Sprintf("second %d", idx))
+		w, err := reg.PushBlobChunked(bg, repo, []int{0, 1, 100}[idx%3])
+		if !note("open", err) {
+			return
+		}
+		_, err = w.Write(append([]byte(nil), first...))
+		note("write first", err)
+		note("close", w.Close())
+		id, sz := w.ID(), w.Size()
+		off := sz
+		if idx/3%2 == 1 {
+			off = -1
+		}
+		arm()
+		_, err = reg.PushBlobChunkedResume(bg, repo, id, off, 0)
+		note("resume during the hiccup", err)
+		w2, err := reg.PushBlobChunkedResume(bg, repo, id, off, 0)
+		if !note("resume again", err) {
+			return
+		}
+		_, err = w2.Write(append([]byte(nil), second...))
+		note("write second", err)
+		all := append(append([]byte(nil), first...), second...)
+		_, err = w2.Commit(ociregistry.Digest(model.Digest(all)))
+		note("commit", err)
+		return res, all
+	}
+	run.Eval(1)
+	var single, unified []stepResult
+	var wantBytes []byte
+	m0, m1 := ocimem.New(), ocimem.New()
+	faulty := idx % 2
+	if !run.Case("resume-retried/total", map[string]any{"idx": idx}, func() {
+		var a bool
+		single, wantBytes = script(failResumeOnce{ocimem.New(), &a}, func() { a = true })
+		var b bool
+		members := [2]ociregistry.Interface{m0, m1}
+		members[faulty] = failResumeOnce{members[faulty], &b}
+		unified, _ = script(ociunify.New(members[0], members[1], &ociunify.Options{ReadPolicy: ociunify.ReadPolicy(idx / 2 % 2)}), func() { b = true })
+	}) {
+		return
+	}
+	w := map[string]any{"idx": idx, "unreachable_member": faulty, "on_one_registry": fmt.Sprint(single), "through_the_unifier": fmt.Sprint(unified)}
+	run.Count("resume_retried_uploads", 1)
+	run.Distinct(fmt.Sprintf("resume-retried/member=%d/steps=%d", faulty, len(single)))
+	for i := range single {
+		if i >= len(unified) || single[i].ok != unified[i].ok {
+			got := "nothing (the script ended earlier)"
+			if i < len(unified) {
+				got = fmt.Sprintf("ok=%v", unified[i].ok)
+			}
+			run.Violation("replicate/resume-retried/step-differs", fmt.Sprintf("step %q: on one registry ok=%v, through the unifier (member %d unreachable for one resume) %s", single[i].what, single[i].ok, faulty, got), w)
+			return
+		}
+	}
+	if len(single) > 0 && single[len(single)-1].ok {
+		run.Count("resume_retried_uploads_committed", 1)
+		for i, m := range []*ocimem.Registry{m0, m1} {
+			r, err := m.GetBlob(bg, "r/resume-retried", ociregistry.Digest(model.Digest(wantBytes)))
+			if err != nil {
+				run.Violation("replicate/resume-retried/member-lacks-blob", fmt.Sprintf("member %d does not hold the committed blob: %v", i, err), w)
 				continue
 			}
 			r.Close()
